@@ -44,9 +44,14 @@ impl<K: Clone + Eq + Hash, V> LruTimeCache<K, V> {
     /// Retrieves a mutable reference to the value stored under `key`, or `None` if the key doesn't exist.
     pub fn get_mut(&mut self, key: &K) -> Option<&mut V> {
         let now = Instant::now();
+        let ttl = self.ttl;
 
         match self.map.raw_entry_mut().from_key(key) {
             hashlink::linked_hash_map::RawEntryMut::Occupied(mut occupied) => {
+                if occupied.get().1 + ttl < now {
+                    // Expired. The entry is left for `remove_expired_values` to collect.
+                    return None;
+                }
                 occupied.get_mut().1 = now;
                 occupied.to_back();
                 Some(&mut occupied.into_mut().0)
